@@ -37,7 +37,8 @@ CEX = {}
 
 
 def model_check(ctx, quick):
-    inv = ["NoSelfOverlap", "NoEarlyStart", "NothingLost", "NoStartAfterCancel", "NoEarlyOvertime", "NoExtraRun"]
+    inv = ["NoSelfOverlap", "NoEarlyStart", "NothingLost", "NoStartAfterCancel", "NoEarlyOvertime", "NoExtraRun", "NoDirectSched",
+           "NoQueueDropWhileRunning"]
     runs = [consts(2, 3, 10, 3), consts(2, 3, 10, 3, rep=1)] if quick else \
         [consts(2, 3, 10, 4), consts(2, 3, 2, 3), consts(3, 2, 10, 3), consts(2, 4, 10, 3, rep=2), consts(2, 3, 2, 4, rep=1)]
     # (key, constants, invariants, must hold)
@@ -51,7 +52,8 @@ def model_check(ctx, quick):
              ("cex-stalerun", consts(2, 3, 2, 3, atomic=False, elem=False), ["NoExtraRun"], False)]
     # plausible regressions modelled as fault variants: their counterexamples are adversarial scripts that the
     # unchanged code passes and a tree with that regression fails
-    faults = (("cancelctx", "NoStartAfterCancel", 10), ("overtimenodue", "NoEarlyOvertime", 10), ("lateexecuting", "NoSelfOverlap", 2))
+    faults = (("cancelctx", "NoStartAfterCancel", 10), ("overtimenodue", "NoEarlyOvertime", 10), ("lateexecuting", "NoSelfOverlap", 2),
+              ("staleovertime", "NoDirectSched", 10), ("noslot", "NoQueueDropWhileRunning", 2))
     for fault, invariant, md in faults:
         jobs.append(("cex-" + fault, consts(2, 3, md, 3, atomic=(fault != "lateexecuting"), fault=fault), [invariant], False))
 
@@ -65,7 +67,7 @@ def model_check(ctx, quick):
     names = {"cex-nodue": "pinned_tree_schedule_handler_without_due_check", "cex-lost": "requeue_while_running_past_max_delay",
              "cex-stale": "stale_handler_decision_windows", "cex-reset": "executeAt_cleared_without_lock",
              "cex-stalerun": "stale_schedule_decision_runs_a_task_twice"}
-    mds = {"cex-lost": 2, "cex-lateexecuting": 2, "cex-stalerun": 2}
+    mds = {"cex-lost": 2, "cex-lateexecuting": 2, "cex-stalerun": 2, "cex-noslot": 2}
     info = {}
     for key, r in res.items():
         if key.startswith("cex-"):
@@ -130,7 +132,13 @@ def gen_scripts(ctx, quick):
                         "steps": [A(1, "queue"), {"a": "await", "t": 1, "k": "-", "at": 0}, A(1, kind),
                                   {"a": "end", "t": 1, "k": "-", "at": 0}, tick, tick, tick]})
     # adversarial schedules: TLC's counterexamples on the model variants, replayed against the real code
-    for fam, (steps, md) in CEX.items():
+    for fam, (steps0, md) in CEX.items():
+        # the model's launch makes the function run: the replay waits until the function has really begun
+        steps = []
+        for st in steps0:
+            steps.append(st)
+            if st["k"] == "launch":
+                steps.append({"a": "await", "t": st["t"], "k": "-", "at": 0})
         if steps:
             tail = [{"a": "free", "t": 0, "k": "-", "at": 0}] + [{"a": "tick", "t": 0, "k": "-", "at": 0}] * 3
             for rep in range(3):   # the replay depends on real timers: three attempts per counterexample
@@ -169,10 +177,11 @@ def sig_of(script, hist, ej):
                 ends = [e for e in ev_k if e["e"] == "end" and e["t"] >= ts]
                 if begins and ends and not [e for e in ev_k if e["e"] == "end" and begins[-1]["t"] <= e["t"] < ts]:
                     # submitted while the function was running; did the schedule handler visit the task meanwhile?
-                    prev_end = max([e["t"] for e in ev_k if e["e"] == "end" and e["t"] < begins[-1]["t"]] or [0])
-                    # a decision of the schedule handler about this task that was taken (or still pending) during the run
-                    visits = [e for e in hist[:ej] if e.get("e") == "note" and e.get("point") == "sched.decided"
-                              and e.get("task") == k and prev_end <= e["t"] <= ends[0]["t"] + 5]
+                    # a decision of the schedule handler about this task that was taken during the run (the decision that
+                    # started the run itself does not count)
+                    bi = max(i for i, e in enumerate(hist[:ej]) if e is begins[-1])
+                    visits = [e for e in hist[bi + 1:ej] if e.get("e") == "note" and e.get("point") == "sched.decided"
+                              and e.get("task") == k and e["t"] <= ends[0]["t"] + 5]
                     tag = "dropped-by-schedule-handler-while-running" if visits else "lost-while-running"
         extra = ":pending=" + ",".join(sorted(set(kinds))) + ":" + tag
     return "%s%s:%s" % (what, extra, script.get("family"))
